@@ -168,10 +168,12 @@ pub mod c04;
 pub mod c07;
 pub mod c09;
 pub mod c10;
+pub mod c11;
+pub mod net;
 pub mod c18;
 
 pub fn dispatch_all(name: &str, s: &mut ReplaySrc) -> bool {
-    c04::dispatch(name, s) || c07::dispatch(name, s) || c09::dispatch(name, s) || c10::dispatch(name, s) || c18::dispatch(name, s)
+    c04::dispatch(name, s) || c07::dispatch(name, s) || c09::dispatch(name, s) || c10::dispatch(name, s) || c11::dispatch(name, s) || c18::dispatch(name, s)
 }
 pub fn all_names() -> Vec<&'static str> {
     let mut v = Vec::new();
@@ -179,6 +181,7 @@ pub fn all_names() -> Vec<&'static str> {
     v.extend(c07::names());
     v.extend(c09::names());
     v.extend(c10::names());
+    v.extend(c11::names());
     v.extend(c18::names());
     v
 }
